@@ -20,23 +20,23 @@ theorem dirLoop_spec (ltr rtl : Bool) (ls : List Nat) (h : ¬ (ltr = true ∧ rt
 /-- an optional paragraph level that is absent, 0 or 1 -/
 def PL01 (o : Option Nat) : Prop := o = none ∨ o = some 0 ∨ o = some 1
 
-theorem iiStep_PL01 (ds : DataSource) (enc : Enc) (split : Bool) (d : Option Nat) (hd : PL01 d)
-    (st : IIState) (s : Seg) (h : PL01 st.paraLevel) : PL01 (iiStep ds enc split d st s).paraLevel := by
+theorem iiStep_PL01 (ds : DataSource) (T : Text) (split : Bool) (d : Option Nat) (hd : PL01 d)
+    (st : IIState) (s : Seg) (h : PL01 st.paraLevel) : PL01 (iiStep ds T split d st s).paraLevel := by
   unfold iiStep
   simp only
   split <;> (try split) <;> (try split) <;> (try split) <;> simp_all [PL01] <;> grind
 
-theorem foldl_PL01 (ds : DataSource) (enc : Enc) (split : Bool) (d : Option Nat) (hd : PL01 d)
+theorem foldl_PL01 (ds : DataSource) (T : Text) (split : Bool) (d : Option Nat) (hd : PL01 d)
     (segs : List Seg) (st : IIState) (h : PL01 st.paraLevel) :
-    PL01 (segs.foldl (iiStep ds enc split d) st).paraLevel := by
+    PL01 (segs.foldl (iiStep ds T split d) st).paraLevel := by
   induction segs generalizing st with
   | nil => exact h
-  | cons s ss ih => exact ih _ (iiStep_PL01 ds enc split d hd st s h)
+  | cons s ss ih => exact ih _ (iiStep_PL01 ds T split d hd st s h)
 
 /-- with a default level in {auto, 0, 1} the level of the last (or only) paragraph is 0 or 1 -/
 theorem lastLevel_le_one (ds : DataSource) (t : Text) (d : Option Nat) (hd : PL01 d) (split : Bool) :
     (computeInitialInfo ds t d split).lastLevel = 0 ∨ (computeInitialInfo ds t d split).lastLevel = 1 := by
-  have := foldl_PL01 ds t.enc split d hd t.segs { paraLevel := d } hd
+  have := foldl_PL01 ds t split d hd t.segs { paraLevel := d } hd
   simp only [computeInitialInfo]
   rcases this with h | h | h <;> simp [h]
 
